@@ -391,6 +391,12 @@ def features(spec):
                     chk_ty(mods, t)
                     if "optional" in anns and is_constructed(mods, t):
                         f.add("optional-constructed-member-needs-partialeq")
+            elif k == "enum":
+                if d[2] is not None:
+                    f.add("bit-bound-attribute-spelling")
+            elif k == "const":
+                if d[2] == ("base", "boolean"):
+                    f.add("boolean-constant-not-rust")
             elif k == "union":
                 if d[2]:
                     f.add("union-annotation-rejected")
@@ -426,9 +432,9 @@ def features(spec):
     return f
 
 
-OUTCOME_CAUSE_ORDER = ["template-close-parsed-as-shift", "union-annotation-rejected", "typedef-array-panics",
+OUTCOME_CAUSE_ORDER = ["template-close-parsed-as-shift", "union-annotation-rejected", "typedef-array-panics", "bit-bound-attribute-spelling",
                        "optional-constructed-member-needs-partialeq", "nested-sequence-not-supported",
-                       "scoped-name-not-resolvable-in-rust"]
+                       "scoped-name-not-resolvable-in-rust", "boolean-constant-not-rust"]
 
 
 # ------------------------------------------------------------------------------------------ random specs
@@ -526,7 +532,7 @@ class IdlGen:
             es.append((self.name("E_"), v))
             cur += 1
         bits = None
-        if r.chance(1, 3):
+        if r.chance(1, 12):          # rare: as it is (D-gen-24 open) such an enum does not compile and costs a probe binary
             bits = next((b for b in r.shuffle([8, 16, 32]) if cur - 1 <= {8: 127, 16: 32767, 32: 2**31 - 1}[b]), None)
         return ("enum", self.name("En"), bits, es)
 
@@ -559,7 +565,9 @@ class IdlGen:
     def const(self):
         r = self.r
         c = r.below(5)
-        if c == 4: return ("const", self.name("K"), tb("boolean"), r.choice(["TRUE", "FALSE"]))
+        if c == 4 and r.chance(1, 3):   # rare: as it is (D-gen-28 open) a boolean constant does not compile and costs a probe binary
+            return ("const", self.name("K"), tb("boolean"), r.choice(["TRUE", "FALSE"]))
+        c = c % 4
         if c == 0: return ("const", self.name("K"), tb("long"), str(r.choice([0, 1, 42, 2147483647])))
         if c == 1: return ("const", self.name("K"), tb("double"), r.choice(["1.5", "0.25", "100.0"]))
         if c == 2: return ("const", self.name("K"), tstr(), '"hello"')
